@@ -151,7 +151,7 @@ impl Met {
         match self {
             Met::Eu | Met::Ma => 8.0 + n,
             // the exponent 1/p is rounded: relative effect |ln d| * eps/2 on the root
-            Met::Mi(_) => 8.0 + n + if refv > 0.0 { refv.ln().abs() } else { 0.0 },
+            Met::Mi(_) => 8.0 + n + if refv > 0.0 && refv.is_finite() { refv.ln().abs() } else { 0.0 },
             Met::HaF | Met::HaI => 2.0,
             Met::MhI => maha_tol_units(n as usize, 1.0),
         }
@@ -159,7 +159,7 @@ impl Met {
 }
 
 fn maha_tol_units(n: usize, cond: f64) -> f64 {
-    (32.0 + 8.0 * (n * n) as f64) * cond
+    (8.0 + 2.0 * (n * n) as f64) * cond
 }
 
 // ------------------------------------------------------------------------------------------------
@@ -331,8 +331,10 @@ fn judge_pair<T: Fl>(comp: &'static str, label: &str, class: Option<&'static str
             );
             ok = false;
         } else if class.is_none() {
-            if err / tol > 0.3 && std::env::var_os("C17_CALIB").is_some() {
-                eprintln!("CALIB {} {} [{}] ratio {:.3} (err {:.2} eps, allowed {:.1})", label, ctx(), T::NAME, err / tol, err / (T::EPS * refv), tol_units);
+            if std::env::var("C17_CALIB").ok().and_then(|v| v.parse::<f64>().ok()).map(|thr| err / tol > thr).unwrap_or(false) {
+                use std::io::Write;
+                let line = format!("CALIB {} [{}] ratio {:.4} (err {:.2} eps, allowed {:.1}) {}\n", label, T::NAME, err / tol, err / (T::EPS * refv), tol_units, ctx());
+                let _ = std::io::stderr().write_all(line.as_bytes());
             }
             headroom(comp, err / tol);
         }
@@ -430,7 +432,7 @@ fn lp_exec<T: Fl>(job: &Job) {
     if job.params["tri"].as_bool().unwrap_or(true) {
         for k in 0..big {
             let zv = &c.vals[k];
-            let l3 = [l2, max_l2(xv, zv), max_l2(zv, yv)].iter().flatten().max().copied();
+            let legs = [l2, max_l2(xv, zv), max_l2(zv, yv)];
             for (mi, m) in METS.iter().enumerate() {
                 let Some(o) = &obs[mi] else { continue };
                 if o.dxy.is_nan() {
@@ -441,9 +443,10 @@ fn lp_exec<T: Fl>(job: &Job) {
                     _ => continue, // reported when (x,z) / (z,y) is the pair of an execution
                 };
                 triples += 1;
-                let rel = m.tol_units(n, o.refv.max(1.0)) * T::EPS;
+                let rel = m.tol_units(n, o.refv).max(m.tol_units(n, dxz)).max(m.tol_units(n, dzy)) * T::EPS;
                 if !triangle_ok(o.dxy, dxz, dzy, rel) {
-                    let class = l3.and_then(|l| m.range_class::<T>(n, l));
+                    // an intermediate of any of the three legs out of range?
+                    let class = legs.iter().flatten().find_map(|l| m.range_class::<T>(n, *l));
                     mc::violation(
                         site(m.comp(), "triangle", class),
                         format!("{} {} z={:?} [{}]: d(x,y) = {:e} > d(x,z) + d(z,y) = {:e} + {:e}", m.label(), ctx(), zv, T::NAME, o.dxy, dxz, dzy),
@@ -575,8 +578,8 @@ fn mcov_exec<T: Fl>(job: &Job) {
             let (Ok(dxz), Ok(dzy)) = (call(i, k), call(k, j)) else { continue };
             triples += 1;
             if !triangle_ok(o.dxy, dxz, dzy, rel) {
-                let l3 = [max_l2(xv, yv), max_l2(xv, &q.vals[k]), max_l2(&q.vals[k], yv)].iter().flatten().max().copied();
-                let class = l3.and_then(|l| maha_class::<T>(n, l, dd::ilog2(inv_max)));
+                let legs = [max_l2(xv, yv), max_l2(xv, &q.vals[k]), max_l2(&q.vals[k], yv)];
+                let class = legs.iter().flatten().find_map(|l| maha_class::<T>(n, *l, dd::ilog2(inv_max)));
                 mc::violation(site("mahalanobis", "triangle", class), format!("Mahalanobis {} z={:?}: d(x,y) = {:e} > d(x,z) + d(z,y) = {:e} + {:e}", ctx(), q.vals[k], o.dxy, dxz, dzy));
             } else if o.dxy > 0.0 && dxz > 0.0 && dzy > 0.0 && o.dxy >= (dxz + dzy) * (1.0 - rel) {
                 tight += 1;
@@ -785,13 +788,13 @@ impl Harness for C17 {
         }
         // ---- lattices: (alphabet, len, chunks) simplest first
         let lattices: Vec<(&str, usize, usize)> = if t {
-            vec![("S5", 1, 1), ("S9", 1, 1), ("S5", 2, 1), ("S9", 2, 2), ("S3", 3, 1), ("MIX", 2, 1), ("S5", 3, 6), ("MIX", 3, 6), ("S3", 4, 2), ("S3", 5, 12), ("S5", 4, 125), ("MIX", 4, 125)]
+            vec![("S5", 1, 1), ("S9", 1, 1), ("S5", 2, 1), ("S9", 2, 2), ("S3", 3, 1), ("MIX", 2, 1), ("S5", 3, 6), ("MIX", 3, 6), ("S3", 4, 2), ("S3", 5, 12), ("S5", 4, 64), ("MIX", 4, 64), ("S9", 3, 128)]
         } else {
             vec![("S5", 1, 1), ("S5", 2, 1), ("S3", 3, 1), ("MIX", 2, 1), ("S5", 3, 4), ("S3", 4, 2), ("MIX", 3, 4)]
         };
         for (alpha, len, chunks) in &lattices {
             let count = cat::alphabet(alpha).len().pow(*len as u32);
-            let scales: &[i64] = if *alpha == "MIX" { &[0] } else { &[0, -6, 6] };
+            let scales: &[i64] = if *alpha == "MIX" || count > 600 { &[0] } else { &[0, -6, 6] };
             for sc10 in scales {
                 for ty in TYPES {
                     push_lp(&mut jobs, "lattice", alpha, *len, false, count, *chunks, *sc10, 0, ty, seed);
@@ -882,7 +885,7 @@ impl Harness for C17 {
                 "types": "f64 and f32 for every family",
                 "metrics": "Euclidian, Manhattan, Minkowski p=1..8, Hamming over float and over i64 elements, Mahalanobis(identity) on every pair; Mahalanobis from covariance / from data in their own families",
                 "lattices": lattices.iter().map(|(a, l, _)| format!("{}^{}", a, l)).collect::<Vec<_>>(),
-                "lattice_scales": "1, 1e-6, 1e6 (alphabet MIX = {0,1,-1e6,1e-6,-3} mixes magnitudes inside a vector)",
+                "lattice_scales": "1, 1e-6, 1e6; scale 1 only for the large lattices S5^4 (625 vectors), S9^3 (729 vectors) and for alphabet MIX = {0,1,-1e6,1e-6,-3}, which mixes magnitudes inside a vector",
                 "extreme_scales": "S3^len (len<=2 quick / 3 thorough) times 2^{±520,-540,±600} (f64), 2^{±70,-80,±100} (f32)",
                 "pairs_and_triples": "every ordered pair (x,y) of each catalogue is one execution; inside it every z of the catalogue is used for the triangle inequality, so every ordered triple is covered",
                 "structured": format!("every length 1..30, {} catalogue (zero, ones, ramps, alternating, unit vectors, one-coordinate modifications incl. +1e-9, mixed magnitudes, fractions), scales 1, 1e-6, 1e6", if t { "full" } else { "reduced" }),
@@ -905,7 +908,7 @@ impl Harness for C17 {
     fn assumptions(&self) -> Vec<String> {
         vec![
             "closed forms are evaluated in double-double arithmetic on exact coordinate differences, rescaled by a power of two (self-tested against exact integer arithmetic at start-up)".into(),
-            "'up to rounding' = (8+n) eps for Euclidian/Manhattan, (8+n+|ln d|) eps for Minkowski, 2 eps for Hamming, (32+8n^2)*cond2 eps for Mahalanobis, relative to the closed form; the triangle inequality and symmetry get three times / once that slack".into(),
+            "'up to rounding' = (8+n) eps for Euclidian/Manhattan, (8+n+|ln d|) eps for Minkowski, 2 eps for Hamming, (8+2n^2)*cond2 eps for Mahalanobis, relative to the closed form; the triangle inequality and symmetry get three times / once that slack".into(),
             "covariance from data = unbiased sample covariance (denominator m-1)".into(),
             "rejection of mismatched lengths = panic (the API returns a bare number)".into(),
             "no library RNG is involved in this property".into(),
